@@ -274,10 +274,74 @@ GetObjectSize(h, g) ==
     ELSE Ok(<<"unavailable">>) /\ UNCHANGED state
 
 -----------------------------------------------------------------------------
-(* Search.  tmpl is "any" (empty template) or a label to match.               *)
+(* Using an object as a key or as key material in a cryptographic or key-      *)
+(* management call (C_EncryptInit, C_DecryptInit, C_SignInit, C_VerifyInit,    *)
+(* C_DigestKey, C_WrapKey as wrapping key / as wrapped key, C_UnwrapKey,       *)
+(* C_DeriveKey).  Reaching the object needs read access.  With access the call *)
+(* may still fail for reasons outside this module (ok = FALSE); it never       *)
+(* changes the state described here.                                           *)
+UseKinds == {"EncryptInit", "DecryptInit", "SignInit", "VerifyInit", "DigestKey",
+             "WrapWith", "WrapIt", "UnwrapWith", "DeriveFrom"}
+
+UseObject(h, g, f, ok) ==
+    IF ObjRv(h, g) # "OK" THEN Fail(ObjRv(h, g))     \* the code: CKR_OBJECT_/KEY_/WRAPPING_KEY_/..._HANDLE_INVALID
+    ELSE IF ReadRv(StateOfH(h), obj[oh[g]].priv) # "OK" THEN Fail("USER_NOT_LOGGED_IN")
+    ELSE IF ok THEN Ok(<<"used">>) /\ UNCHANGED state
+    ELSE Fail("FUNCTION_FAILED")
+
+(* Objects that come to exist through C_GenerateKey, C_UnwrapKey, C_DeriveKey  *)
+(* (one object) and C_GenerateKeyPair (two objects): the same access rule as   *)
+(* C_CreateObject.                                                             *)
+MakeKinds == {"generate", "unwrap", "derive"}
+
+MakeKey(h, how, o, tokobj, private, lab, nh, ok) ==
+    IF h \notin DOMAIN sess THEN Fail("SESSION_HANDLE_INVALID")
+    ELSE LET w == WriteRv(StateOfH(h), tokobj, private) IN
+         IF w # "OK" THEN Fail(w)
+         ELSE IF ~ok THEN Fail("FUNCTION_FAILED")
+         ELSE /\ o \notin DOMAIN obj /\ o \notin dead
+              /\ nh \notin issued /\ nh # 0
+              /\ obj'    = Ext(obj, o, [t |-> sess[h].t, tokobj |-> tokobj, priv |-> private,
+                                        owner |-> IF tokobj THEN 0 ELSE h, lab |-> lab])
+              /\ oh'     = Ext(oh, nh, o)
+              /\ issued' = issued \cup {nh}
+              /\ Ok(<<nh>>)
+              /\ UNCHANGED <<tok, login, sess, fop, dead>>
+
+MakePair(h, o1, o2, tokobj, private, lab, nh1, nh2, ok) ==
+    IF h \notin DOMAIN sess THEN Fail("SESSION_HANDLE_INVALID")
+    ELSE LET w == WriteRv(StateOfH(h), tokobj, private)
+             rec == [t |-> sess[h].t, tokobj |-> tokobj, priv |-> private,
+                     owner |-> IF tokobj THEN 0 ELSE h, lab |-> lab] IN
+         IF w # "OK" THEN Fail(w)
+         ELSE IF ~ok THEN Fail("FUNCTION_FAILED")
+         ELSE /\ {o1, o2} \cap (DOMAIN obj \cup dead) = {} /\ o1 # o2
+              /\ {nh1, nh2} \cap issued = {} /\ nh1 # 0 /\ nh2 # 0 /\ nh1 # nh2
+              /\ obj'    = [x \in (DOMAIN obj) \cup {o1, o2} |-> IF x \in {o1, o2} THEN rec ELSE obj[x]]
+              /\ oh'     = [x \in (DOMAIN oh) \cup {nh1, nh2} |->
+                               IF x = nh1 THEN o1 ELSE IF x = nh2 THEN o2 ELSE oh[x]]
+              /\ issued' = issued \cup {nh1, nh2}
+              /\ Ok(<<nh1, nh2>>)
+              /\ UNCHANGED <<tok, login, sess, fop, dead>>
+
+-----------------------------------------------------------------------------
+(* Search.  A template is a set of atoms, all of which must match (the empty   *)
+(* set matches everything):                                                    *)
+(*   a label        CKA_LABEL equals that label (the label "e" is the empty    *)
+(*                  byte string: an empty template value matches only an empty *)
+(*                  attribute value)                                           *)
+(*   "tok" "sess"   CKA_TOKEN true / false      "priv" "pub"  CKA_PRIVATE      *)
+(*   "absent"       an attribute the object does not have: no match            *)
+(*   "wrongsize"    a value whose length differs from the attribute's: no match *)
 
 Visible(h, o) == obj[o].t = sess[h].t /\ (obj[o].priv => UserState(StateOfH(h)))
-Matches(o, tmpl) == tmpl = "any" \/ obj[o].lab = tmpl
+MatchAtom(o, a) == IF a = "tok"  THEN obj[o].tokobj
+                   ELSE IF a = "sess" THEN ~obj[o].tokobj
+                   ELSE IF a = "priv" THEN obj[o].priv
+                   ELSE IF a = "pub"  THEN ~obj[o].priv
+                   ELSE IF a \in {"absent", "wrongsize"} THEN FALSE
+                   ELSE obj[o].lab = a
+Matches(o, tmpl) == \A a \in tmpl : MatchAtom(o, a)
 FindSet(h, tmpl) == {o \in DOMAIN obj : Visible(h, o) /\ Matches(o, tmpl)}
 
 \* nhf: function from the found objects that have no handle yet to fresh, distinct handle values
@@ -353,6 +417,16 @@ OneHandlePerObject == \A g1, g2 \in DOMAIN oh : oh[g1] = oh[g2] => g1 = g2
 SessionObjHasOwner == \A o \in DOMAIN obj : ~obj[o].tokobj => (obj[o].owner \in DOMAIN sess /\ sess[obj[o].owner].t = obj[o].t)
 HandleImpliesSession == \A g \in DOMAIN oh : SessionsOf(obj[oh[g]].t) # {}
 DeadStayDead      == dead \cap DOMAIN obj = {}
+
+\* C01 as action properties: the observable outcome of a denied attempt
+DeniedYieldsNothing == [][rv' # "OK" => out' = <<>>]_vars
+TokenWriteNeedsRW ==
+    [][\A o \in ((DOMAIN obj \cup DOMAIN obj') \ (DOMAIN obj \cap DOMAIN obj')) :
+          LET r == IF o \in DOMAIN obj THEN obj[o] ELSE obj'[o] IN
+          \* (C_InitToken wipes a token only while no session is open on it)
+          (r.tokobj /\ rv' = "OK") => (SessionsOf(r.t) = {} \/ \E h \in DOMAIN sess : sess[h].t = r.t /\ sess[h].rw)]_vars
+NoPrivateCreateOutsideUser ==
+    [][\A o \in (DOMAIN obj') \ (DOMAIN obj) : obj'[o].priv => login[obj'[o].t] = "user"]_vars
 
 \* action properties
 NeverReissued == [][\A g \in ((DOMAIN sess' \cup DOMAIN oh') \ (DOMAIN sess \cup DOMAIN oh)) : g \notin issued /\ g # 0]_vars
